@@ -96,18 +96,23 @@ def transcript(seq):
     return "\n".join(out) + "\n"
 
 
-def first_mismatch(dout):
+def first_mismatch(dout, linemap=None):
     """index (0-based, in calls) of the first call the model does not explain, or None"""
     best = None
     for l in dout.splitlines():
         m = re.match(r"(MISMATCH|UNPARSED|PROTOCOL) line (\d+)", l)
         if m:
-            k = (int(m.group(2)) - 1) // 2
+            k = linemap.get(int(m.group(2)), 0) if linemap is not None else (int(m.group(2)) - 1) // 2
             if best is None or k < best[0]: best = (k, l)
     return best
 
 
-def linearize(calls):
+def _plain(seq):
+    tx = transcript(seq)
+    return tx, None
+
+
+def linearize(calls, transcript_fn=None):
     """-> (explained: bool, orders tried, detail of the best attempt (longest explained prefix), transcript of that attempt)"""
     done = [c for c in calls if c["end"] is not None]
     n = len(done)
@@ -129,9 +134,9 @@ def linearize(calls):
         if len(order) == n:
             tried += 1
             seq = [done[i] for i in order]
-            tx = transcript(seq)
+            tx, linemap = (transcript_fn or _plain)(seq)
             rc, dout = core.run_driver(tx)
-            fm = first_mismatch(dout)
+            fm = first_mismatch(dout, linemap)
             if fm is None: result["ok"] = True; best = (n, "", tx); return
             k, line = fm
             bad.add(tuple(order[:k + 1]))
